@@ -268,7 +268,7 @@ def run(ctx: core.Ctx) -> int:
     sfn = core.need(core.find_func(core.need(core.find_class(mod, "ExtendedKalmanFilter"), "python.ExtendedKalmanFilter"), "sensor_model"),
                     "ExtendedKalmanFilter.sensor_model")
     from .. import normast as _na
-    sfn_n = _na.Normaliser(_na.class_resolver(mod, core.find_class(mod, "ExtendedKalmanFilter"), module_funcs=False)).function(sfn)
+    sfn_n = _na.Normaliser(_na.class_resolver(mod, core.find_class(mod, "ExtendedKalmanFilter"), module_funcs="small")).function(sfn)
     gates = [c for c in ast.walk(sfn_n) if isinstance(c, ast.Call) and ast.unparse(c.func).split(".")[-1] == "assert_valid_covariance" and c.args]
     computed = [g for g in gates if not (isinstance(g.args[0], ast.Attribute) and g.args[0].attr == "data")]
     ngs = 0
@@ -337,7 +337,7 @@ def run(ctx: core.Ctx) -> int:
     cfn = core.need(core.find_func(ccls, "_translate_control_covariance"), "cpp._translate_control_covariance")
     ctx.rule("LAY-KEYMAT", "control covariance entries (i, j) and (j, i) both assigned from the name-keyed table")
     keymat.check_function(ctx, genlayout.CPPF, "ExtendedKalmanFilter._translate_control_covariance", cfn,
-                          [a.arg for a in cfn.args.args if a.arg != "self"][0])
+                          [a.arg for a in cfn.args.args if a.arg != "self"][0], mod=cmod, cls=ccls)
     w = witness.Witness(ctx)
     v = witness.Valuation(True, True)
     gf = cppforms.generated_filter_forms(ctx, w, v)
